@@ -1,5 +1,6 @@
 import Passage.Driver.Common
 import Passage.RateLimiter
+import Passage.Props.C13
 namespace Passage.Driver.C13
 open Passage Passage.Driver Passage.RL
 
@@ -26,6 +27,33 @@ def satCount (c : Cfg) : Nat → Bucket → Nat → Nat
     let r := stepB exactArith c b 0
     satCount c n r.1 (if r.2 then acc + 1 else acc)
 
+/-! ### the binary32 arithmetic of the real limiter, executable only (`Float32` is opaque to the kernel) -/
+
+/-- `Duration::as_secs_f32`: `(secs as f32) + (nanos as f32) / (1_000_000_000 as f32)` -/
+def secsF32 (ns : Nat) : Float32 :=
+  (UInt64.ofNat (ns / 1000000000)).toFloat32 + (UInt32.ofNat (ns % 1000000000)).toFloat32 / (UInt32.ofNat 1000000000).toFloat32
+
+/-- a counter built by `+= 1f32` from zero: exact up to 2^24, where it stops growing -/
+def counterF32 (n : Nat) : Float32 := (UInt32.ofNat (min n 16777216)).toFloat32
+
+/-- `!(last * (1 - age/d) + current >= limit)` with every operation in binary32; `limit as f32` from the `usize` -/
+def allowF32 (prev cur limit age d : Nat) : Bool :=
+  let w := secsF32 age / secsF32 d
+  let v := counterF32 prev * (1.0 - w) + counterF32 cur
+  !(decide (v ≥ (UInt64.ofNat limit).toFloat32))
+
+/-- binary32 run; besides decisions and tracked keys: the first call on which the binary32 arithmetic broke law L1 or
+    L2 (counted in `Nat` while counters are below 2^24), and on how many calls it differed from the exact arithmetic -/
+def goF (c : Cfg) : State → List (Nat × Nat) → List Char → List String → Option Nat → Nat → Nat → List Char × List String × Option Nat × Nat
+  | _, [], ds, tr, bad, _, diff => (ds.reverse, tr.reverse, bad, diff)
+  | s, (k, t) :: h, ds, tr, bad, i, diff =>
+    let b1 := roll c t ((lookup k s.buckets).getD (freshB t))
+    let lawOk := Passage.Props.C13.lawsHoldAt allowF32 b1.prev b1.cur c.limit (t - b1.win) c.d
+    let same := allowF32 b1.prev b1.cur c.limit (t - b1.win) c.d == exactArith.allow b1.prev b1.cur c.limit (t - b1.win) c.d
+    let r := enqueueF allowF32 c s k t
+    goF c r.1 h ((if r.2 then '1' else '0') :: ds) (if r.2 then keyDigest r.1.buckets :: tr else tr)
+      (if bad.isNone && !lawOk then some i else bad) (i + 1) (if same then diff else diff + 1)
+
 /-- `c13.run <limit> <d_ns> k:t k:t …` → `dec=<bits> tracked=<digest after each admitted attempt>` -/
 def handle : List String → Option String
   | "c13.run" :: limit :: d :: evs => do
@@ -34,6 +62,12 @@ def handle : List String → Option String
     let evs ← evs.mapM parseEv
     let (ds, tr) := go ⟨d, limit⟩ init evs [] []
     some s!"dec={String.ofList ds} tracked={",".intercalate tr}"
+  | "c13.f32" :: limit :: d :: evs => do
+    let limit ← limit.toNat?
+    let d ← d.toNat?
+    let evs ← evs.mapM parseEv
+    let (ds, tr, bad, _) := goF ⟨d, limit⟩ init evs [] [] none 0 0
+    some s!"dec={String.ofList ds} tracked={",".intercalate tr} laws={match bad with | none => "ok" | some i => s!"broken@{i}"}"
   | ["c13.sat", limit, d, n] => do
     let limit ← limit.toNat?
     let d ← d.toNat?
